@@ -618,6 +618,26 @@ func startAlphabet(seed int64) []startKind {
 	}
 }
 
+// refusedAlphabet: starts that must be refused (invalid arguments).  A refused
+// start leaves whatever was persisted untouched.
+func refusedAlphabet(seed int64, thorough bool) []startKind {
+	c := identityArgs(seed, "C")
+	badSeed := append([]string{}, c...)
+	badSeed[2] = "drbg-seed=" + strings.Repeat("zz", 24)
+	ks := []startKind{
+		{"refused/iat=3", []string{"iat-mode=3"}},
+		{"refused/explicit-C-bad-seed", badSeed},
+	}
+	if thorough {
+		shortKey := append([]string{}, c...)
+		shortKey[1] = "private-key=abcd"
+		ks = append(ks, startKind{"refused/iat=-1", []string{"iat-mode=-1"}},
+			startKind{"refused/explicit-C+iat=7", append(append([]string{}, c...), "iat-mode=7")},
+			startKind{"refused/explicit-C-short-key", shortKey})
+	}
+	return ks
+}
+
 // model of what must be presented
 type persisted struct {
 	have   bool
@@ -640,6 +660,14 @@ func checkStart(c *mc.Ctx, o startOut, err error, st *persisted, sk startKind, w
 	if err != nil {
 		fail(c, "machinery", "helper", "%s: %v", what, err)
 		return false
+	}
+	if strings.HasPrefix(sk.name, "refused/") {
+		// invalid arguments: the start is refused and nothing persisted changes
+		// (the next starts are checked against the unchanged model)
+		if o.OK {
+			c.Count("invalid_arguments_accepted", 1)
+		}
+		return true
 	}
 	if !o.OK {
 		fail(c, "start", "start-fails/"+sk.name, "%s: start failed: %s", what, o.Err)
@@ -937,6 +965,21 @@ func main() {
 				hists = append(hists, []int{a, b})
 				for cc := range alpha {
 					hists = append(hists, []int{a, b, cc})
+				}
+			}
+		}
+		// refused starts in between: (valid, refused, valid) and (refused, valid),
+		// (valid, refused) -- the start after a refused one shows whether the
+		// persisted identity survived it
+		nValid := len(alpha)
+		alpha = append(alpha, refusedAlphabet(cfg.Seed, cfg.Thorough())...)
+		for r := nValid; r < len(alpha); r++ {
+			for a := 0; a < nValid; a++ {
+				hists = append(hists, []int{r, a})
+				for b := 0; b < nValid; b++ {
+					if cfg.Thorough() || b == 0 || b == a {
+						hists = append(hists, []int{a, r, b})
+					}
 				}
 			}
 		}
